@@ -214,14 +214,14 @@ fn patch_block_raw<const LEN: usize, const PADDED: usize>() {
     kani::cover!(true, "reachable");
 }
 
-//@unit props=C03 label=S tier=quick fn=sqpack::read_data_block_patch bound="raw block of 112 bytes (header + payload end exactly on the 128-byte boundary); first and last payload byte symbolic" stubs=fmt::format
+//@unit props=C03 label=S tier=parked fn=sqpack::read_data_block_patch bound="raw block of 112 bytes (header + payload end exactly on the 128-byte boundary); first and last payload byte symbolic" stubs=fmt::format
 //@desc a raw patch block yields its file_size bytes and occupies (file_size + 143) & !127 bytes: 128 for 112 payload bytes
 #[kani::proof]
 #[kani::unwind(8)]
 #[kani::stub(alloc::fmt::format, stub_fmt)]
 fn k_patch_block_raw_112() { patch_block_raw::<112, 128>(); }
 
-//@unit props=C03 label=S tier=quick fn=sqpack::read_data_block_patch bound="raw block of 113 bytes (needs a second 128-byte unit); first and last payload byte symbolic" stubs=fmt::format
+//@unit props=C03 label=S tier=parked fn=sqpack::read_data_block_patch bound="raw block of 113 bytes (needs a second 128-byte unit); first and last payload byte symbolic" stubs=fmt::format
 //@desc one byte more needs a second unit: 256 bytes
 #[kani::proof]
 #[kani::unwind(8)]
